@@ -16,15 +16,15 @@ namespace BipG
 
 theorem addEdgesFrom_nil (G : BipG) : G.addEdgesFrom [] = .ok G := rfl
 
-theorem addEdgesFrom_cons (G : BipG) (e : Int × Int) (es : List (Int × Int)) :
+theorem addEdgesFrom_cons_gb (G : BipG) (e : Int × Int) (es : List (Int × Int)) :
     G.addEdgesFrom (e :: es) = (G.addEdge e.1 e.2 >>= fun g => g.addEdgesFrom es) := by
   simp [addEdgesFrom, List.foldlM]
 
 /-- a sequence of `add_edge` calls that returns: the object stays consistent, no edge is lost,
 the edges that appear are exactly the ones asked for, and every call was inside the graph -/
-theorem addEdgesFrom_spec (es : List (Int × Int)) (G G' : BipG) (hI : G.Inv)
+theorem addEdgesFrom_spec_gb (es : List (Int × Int)) (G G' : BipG) (hI : G.InvGB)
     (h : G.addEdgesFrom es = .ok G') :
-    G'.Inv ∧ G'.l = G.l ∧ G'.r = G.r ∧
+    G'.InvGB ∧ G'.l = G.l ∧ G'.r = G.r ∧
     (∀ e, e ∈ G'.edgeset ↔ e ∈ G.edgeset ∨ e ∈ es.map natPair) ∧
     (∀ e ∈ es, 1 ≤ e.1 ∧ e.1 ≤ G.l ∧ 1 ≤ e.2 ∧ e.2 ≤ G.r) := by
   induction es generalizing G with
@@ -32,9 +32,9 @@ theorem addEdgesFrom_spec (es : List (Int × Int)) (G G' : BipG) (hI : G.Inv)
     simp [addEdgesFrom_nil] at h; subst h
     exact ⟨hI, rfl, rfl, by simp, by simp⟩
   | cons e es ih =>
-    rw [addEdgesFrom_cons, except_bind_ok] at h
+    rw [addEdgesFrom_cons_gb, except_bind_ok] at h
     obtain ⟨G1, h1, h2⟩ := h
-    have hI1 := inv_addEdge G G1 _ _ hI h1
+    have hI1 := inv_addEdge_gb G G1 _ _ hI h1
     obtain ⟨hl1, hr1⟩ := sides_addEdge G G1 _ _ h1
     obtain ⟨hI', hl, hr, hmem, hin⟩ := ih G1 hI1 h2
     refine ⟨hI', by omega, by omega, ?_, ?_⟩
@@ -63,7 +63,7 @@ theorem addEdgesFrom_fresh (es : List (Int × Int)) (G G' : BipG)
   induction es generalizing G with
   | nil => simp [addEdgesFrom_nil] at h; subst h; simp
   | cons e es ih =>
-    rw [addEdgesFrom_cons, except_bind_ok] at h
+    rw [addEdgesFrom_cons_gb, except_bind_ok] at h
     obtain ⟨G1, h1, h2⟩ := h
     simp only [List.map_cons, List.nodup_cons] at hnd
     obtain ⟨hr, hcase⟩ := addEdge_ok G G1 _ _ h1
@@ -83,13 +83,13 @@ theorem addEdgesFrom_fresh (es : List (Int × Int)) (G G' : BipG)
       rw [this, hes]
       simp [natPair]
 
-theorem addEdgesFrom_error (es : List (Int × Int)) (G : BipG) (e : Err)
+theorem addEdgesFrom_error_gb (es : List (Int × Int)) (G : BipG) (e : Err)
     (h : G.addEdgesFrom es = .error e) :
     e = .valueError ∧ ∃ x ∈ es, ¬ (1 ≤ x.1 ∧ x.1 ≤ G.l ∧ 1 ≤ x.2 ∧ x.2 ≤ G.r) := by
   induction es generalizing G with
   | nil => simp [addEdgesFrom_nil] at h
   | cons x es ih =>
-    rw [addEdgesFrom_cons, except_bind_error] at h
+    rw [addEdgesFrom_cons_gb, except_bind_error] at h
     rcases h with h | ⟨G1, h1, h2⟩
     · obtain ⟨he, hr⟩ := addEdge_error G _ _ e h
       exact ⟨he, x, by simp, hr⟩
@@ -105,7 +105,7 @@ theorem addEdgesFrom_sides (es : List (Int × Int)) (G G' : BipG) (h : G.addEdge
   induction es generalizing G with
   | nil => simp [addEdgesFrom_nil] at h; subst h; exact ⟨rfl, rfl⟩
   | cons x es ih =>
-    rw [addEdgesFrom_cons, except_bind_ok] at h
+    rw [addEdgesFrom_cons_gb, except_bind_ok] at h
     obtain ⟨G2, h1, h2⟩ := h
     have := sides_addEdge _ _ _ _ h1
     have := ih G2 h2
@@ -117,7 +117,7 @@ theorem addEdgesFrom_mono (es : List (Int × Int)) (G G' : BipG) (h : G.addEdges
   induction es generalizing G with
   | nil => simp [addEdgesFrom_nil] at h; subst h; exact he
   | cons x es ih =>
-    rw [addEdgesFrom_cons, except_bind_ok] at h
+    rw [addEdgesFrom_cons_gb, except_bind_ok] at h
     obtain ⟨G2, h1, h2⟩ := h
     exact ih G2 h2 ((edgeset_addEdge _ _ _ _ h1 e).2 (Or.inr he))
 
@@ -187,10 +187,10 @@ theorem addRow_eq (G : BipG) (u : Nat) (vs : List Nat) :
 
 /-- the loop of `bipartite_random_left_regular` over the left vertices `us` still to do -/
 theorem leftRegularLoop_spec (r : Nat) (d : Int) (us : List Nat) (G G' : BipG) (ds rest : List Draw)
-    (hI : G.Inv) (hr : G.r = r) (hus : us.Nodup)
+    (hI : G.InvGB) (hr : G.r = r) (hus : us.Nodup)
     (hfree : ∀ e ∈ G.edgeset, e.1 ∉ us)
     (h : leftRegularLoop r d us G ds = .ok G' rest) :
-    G'.Inv ∧ G'.l = G.l ∧ G'.r = G.r ∧
+    G'.InvGB ∧ G'.l = G.l ∧ G'.r = G.r ∧
     (∀ u ∈ us, (G'.leftDeg u : Int) = d) ∧ (∀ u, u ∉ us → G'.leftDeg u = G.leftDeg u) := by
   induction us generalizing G ds with
   | nil =>
@@ -207,7 +207,7 @@ theorem leftRegularLoop_spec (r : Nat) (d : Int) (us : List Nat) (G G' : BipG) (
     obtain ⟨hrow, rfl⟩ := hrow
     obtain ⟨hlen, hnd, hmem, _⟩ := sample_ok _ _ _ _ _ hs
     rw [addRow_eq] at hrow
-    obtain ⟨hI1, hl1, hr1, hm1, _⟩ := BipG.addEdgesFrom_spec _ G G1 hI hrow
+    obtain ⟨hI1, hl1, hr1, hm1, _⟩ := BipG.addEdgesFrom_spec_gb _ G G1 hI hrow
     have hmap := rowCalls_natPair u (sortNat s)
     have hperm := perm_sortNat s
     have hnd' : (sortNat s).Nodup := hperm.nodup_iff.2 hnd
@@ -252,7 +252,7 @@ theorem leftRegularLoop_spec (r : Nat) (d : Int) (us : List Nat) (G G' : BipG) (
 /-- `bipartite_random_left_regular(l, r, d)`, whenever it returns -/
 theorem leftRegular_ok (l r d : Int) (ds rest : List Draw) (G : BipG)
     (h : leftRegular l r d ds = .ok G rest) :
-    0 ≤ l ∧ 0 ≤ r ∧ 0 ≤ d ∧ G.Inv ∧ G.l = l.toNat ∧ G.r = r.toNat ∧
+    0 ≤ l ∧ 0 ≤ r ∧ 0 ≤ d ∧ G.InvGB ∧ G.l = l.toNat ∧ G.r = r.toNat ∧
     ∀ u, 1 ≤ u → u ≤ G.l → (G.leftDeg u : Int) = min r d := by
   unfold leftRegular at h
   split at h
@@ -260,7 +260,7 @@ theorem leftRegular_ok (l r d : Int) (ds rest : List Draw) (G : BipG)
   · rename_i hg
     have hg' : 0 ≤ l ∧ 0 ≤ r ∧ 0 ≤ d := by omega
     obtain ⟨hI, hl, hr, hdeg, _⟩ := leftRegularLoop_spec r.toNat (min r d) _ _ G ds rest
-      (BipG.inv_init _ _) rfl (nodup_rangeN _ _) (by simp [BipG.init]) h
+      (BipG.inv_init_gb _ _) rfl (nodup_rangeN _ _) (by simp [BipG.init]) h
     refine ⟨hg'.1, hg'.2.1, hg'.2.2, hI, hl, hr, ?_⟩
     intro u h1 h2
     apply hdeg u
@@ -281,7 +281,7 @@ theorem leftRegularLoop_exc (r : Nat) (d : Int) (us : List Nat) (G : BipG) (ds :
       obtain ⟨_, _, hmem, _⟩ := sample_ok _ _ _ _ _ hs
       rcases h with h | ⟨G1, mid2, hrow, h⟩
       · rw [lift_exc, addRow_eq] at h
-        obtain ⟨_, x, hx, hbad⟩ := BipG.addEdgesFrom_error _ _ _ h
+        obtain ⟨_, x, hx, hbad⟩ := BipG.addEdgesFrom_error_gb _ _ _ h
         simp only [rowCalls, List.mem_map] at hx
         obtain ⟨v, hv, rfl⟩ := hx
         have hv' := hmem v ((perm_sortNat s).mem_iff.1 hv)
@@ -331,8 +331,8 @@ theorem numberOfEdges_addEdge_new (G G' : BipG) (u v : Int) (h : G.addEdge u v =
 
 /-- the sparse strategy: whatever is drawn, when the loop ends exactly `need` new edges are there -/
 theorem mEdgesSparse_ok (L R : Int) (fuel need : Nat) (G G' : BipG) (ds rest : List Draw)
-    (hI : G.Inv) (h : mEdgesSparse L R fuel need G ds = .ok G' rest) :
-    G'.Inv ∧ G'.l = G.l ∧ G'.r = G.r ∧ G'.numberOfEdges = G.numberOfEdges + need := by
+    (hI : G.InvGB) (h : mEdgesSparse L R fuel need G ds = .ok G' rest) :
+    G'.InvGB ∧ G'.l = G.l ∧ G'.r = G.r ∧ G'.numberOfEdges = G.numberOfEdges + need := by
   induction fuel generalizing need G ds with
   | zero =>
     cases need with
@@ -354,7 +354,7 @@ theorem mEdgesSparse_ok (L R : Int) (fuel need : Nat) (G G' : BipG) (ds rest : L
         obtain ⟨G1, mid3, h1, h⟩ := h
         rw [lift_ok] at h1
         obtain ⟨h1, rfl⟩ := h1
-        have hI1 := BipG.inv_addEdge G G1 u v hI h1
+        have hI1 := BipG.inv_addEdge_gb G G1 u v hI h1
         obtain ⟨hl1, hr1⟩ := BipG.sides_addEdge G G1 u v h1
         have hn1 := numberOfEdges_addEdge_new G G1 u v h1 (by simpa using he)
         obtain ⟨hI', hl', hr', hn'⟩ := ih n G1 mid2 hI1 h
@@ -408,7 +408,7 @@ theorem mEdgesSparse_noForeign (L R : Int) (fuel need : Nat) (G : BipG) :
 /-- both strategies of `bipartite_random_m_edges`, for a request in range: exactly `m` edges -/
 theorem mEdgesBody_ok (L R m : Int) (_hL : 1 ≤ L) (_hR : 1 ≤ R) (hm : 0 ≤ m)
     (ds rest : List Draw) (G : BipG) (h : mEdgesBody L R m ds = .ok G rest) :
-    G.Inv ∧ G.l = L.toNat ∧ G.r = R.toNat ∧ G.numberOfEdges = m.toNat := by
+    G.InvGB ∧ G.l = L.toNat ∧ G.r = R.toNat ∧ G.numberOfEdges = m.toNat := by
   unfold mEdgesBody at h
   split at h
   · rw [bind_ok] at h
@@ -416,13 +416,13 @@ theorem mEdgesBody_ok (L R m : Int) (_hL : 1 ≤ L) (_hR : 1 ≤ R) (hm : 0 ≤ 
     rw [lift_ok] at h
     obtain ⟨hadd, rfl⟩ := h
     obtain ⟨hlen, hnd, hmem, _⟩ := samplePairs_ok _ _ _ _ _ hs
-    obtain ⟨hI, hl, hr, _, _⟩ := BipG.addEdgesFrom_spec _ _ G (BipG.inv_init _ _) hadd
+    obtain ⟨hI, hl, hr, _, _⟩ := BipG.addEdgesFrom_spec_gb _ _ G (BipG.inv_init_gb _ _) hadd
     have hf := BipG.addEdgesFrom_fresh _ _ G hadd (by rw [pairsToInt_natPair]; exact hnd)
       (by simp [BipG.init])
     refine ⟨hI, hl, hr, ?_⟩
     rw [BipG.numberOfEdges, hf, pairsToInt_natPair]
     simp [BipG.init]; omega
-  · have := mEdgesSparse_ok L R ds.length m.toNat (BipG.init L.toNat R.toNat) G ds rest (BipG.inv_init _ _) h
+  · have := mEdgesSparse_ok L R ds.length m.toNat (BipG.init L.toNat R.toNat) G ds rest (BipG.inv_init_gb _ _) h
     obtain ⟨hI', hl', hr', hn'⟩ := this
     exact ⟨hI', hl', hr', by rw [hn']; simp [BipG.numberOfEdges, BipG.init]⟩
 
@@ -439,7 +439,7 @@ theorem mEdgesBody_exc (L R m : Int) (hL : 1 ≤ L) (hR : 1 ≤ R) (hm : 0 ≤ m
       omega
     · obtain ⟨hlen, hnd, hmem, _⟩ := samplePairs_ok _ _ _ _ _ hs
       rw [lift_exc] at h
-      obtain ⟨_, x, hx, hbad⟩ := BipG.addEdgesFrom_error _ _ _ h
+      obtain ⟨_, x, hx, hbad⟩ := BipG.addEdgesFrom_error_gb _ _ _ h
       simp only [pairsToInt, List.mem_map] at hx
       obtain ⟨y, hy, rfl⟩ := hx
       have := mem_allPairs.1 (hmem y hy)
@@ -449,7 +449,7 @@ theorem mEdgesBody_exc (L R m : Int) (hL : 1 ≤ L) (hR : 1 ≤ R) (hm : 0 ≤ m
 /-- `bipartite_random_m_edges(L, R, m)` whenever it returns: exactly `m` edges -/
 theorem randomMEdges_ok (L R m : Int) (ds rest : List Draw) (G : BipG)
     (h : randomMEdges L R m ds = .ok G rest) :
-    1 ≤ L ∧ 1 ≤ R ∧ 0 ≤ m ∧ m ≤ L * R ∧ G.Inv ∧ G.l = L.toNat ∧ G.r = R.toNat ∧
+    1 ≤ L ∧ 1 ≤ R ∧ 0 ≤ m ∧ m ≤ L * R ∧ G.InvGB ∧ G.l = L.toNat ∧ G.r = R.toNat ∧
     G.numberOfEdges = m.toNat := by
   unfold randomMEdges at h
   split at h
@@ -508,8 +508,8 @@ theorem coinLoop_mono (le : Nat → Bool) (ps : List (Nat × Nat)) (G G' : BipG)
 /-- the loop of `bipartite_random`: a consistent graph on the same sides whose edges are among the
 pairs visited; when the comparison succeeds for every possible draw (p = 1), all of them -/
 theorem coinLoop_spec (le : Nat → Bool) (ps : List (Nat × Nat)) (G G' : BipG) (ds rest : List Draw)
-    (hI : G.Inv) (h : coinLoop le ps G ds = .ok G' rest) :
-    G'.Inv ∧ G'.l = G.l ∧ G'.r = G.r ∧
+    (hI : G.InvGB) (h : coinLoop le ps G ds = .ok G' rest) :
+    G'.InvGB ∧ G'.l = G.l ∧ G'.r = G.r ∧
     (∀ e, e ∈ G'.edgeset → e ∈ G.edgeset ∨ e ∈ ps) ∧
     ((∀ x, x < unitDen → le x = true) → ∀ e ∈ ps, e ∈ G'.edgeset) := by
   induction ps generalizing G ds with
@@ -529,7 +529,7 @@ theorem coinLoop_spec (le : Nat → Bool) (ps : List (Nat × Nat)) (G G' : BipG)
       obtain ⟨G1, mid2, h1, h⟩ := h
       rw [lift_ok] at h1
       obtain ⟨h1, rfl⟩ := h1
-      have hI1 := BipG.inv_addEdge G G1 _ _ hI h1
+      have hI1 := BipG.inv_addEdge_gb G G1 _ _ hI h1
       obtain ⟨hl1, hr1⟩ := BipG.sides_addEdge G G1 _ _ h1
       obtain ⟨hI', hl', hr', hsub, hall⟩ := ih G1 mid hI1 h
       have hm := BipG.edgeset_addEdge G G1 _ _ h1
@@ -589,13 +589,13 @@ theorem coinLoop_noForeign (le : Nat → Bool) (ps : List (Nat × Nat)) (G : Bip
 /-- `bipartite_random(L, R, p)` whenever it returns -/
 theorem bipRandom_ok (L R pn : Int) (pd : Nat) (ds rest : List Draw) (G : BipG)
     (h : bipRandom L R pn pd ds = .ok G rest) :
-    1 ≤ L ∧ 1 ≤ R ∧ 0 ≤ pn ∧ pn ≤ pd ∧ G.Inv ∧ G.l = L.toNat ∧ G.r = R.toNat ∧
+    1 ≤ L ∧ 1 ≤ R ∧ 0 ≤ pn ∧ pn ≤ pd ∧ G.InvGB ∧ G.l = L.toNat ∧ G.r = R.toNat ∧
     (pn = pd → G.numberOfEdges = L.toNat * R.toNat) := by
   unfold bipRandom at h
   split at h
   · simp at h
   · rename_i hg
-    obtain ⟨hI, hl, hr, hsub, hall⟩ := coinLoop_spec _ _ _ G ds rest (BipG.inv_init _ _) h
+    obtain ⟨hI, hl, hr, hsub, hall⟩ := coinLoop_spec _ _ _ G ds rest (BipG.inv_init_gb _ _) h
     refine ⟨by omega, by omega, by omega, by omega, hI, hl, hr, ?_⟩
     intro hp
     have hall' := hall (by
